@@ -187,10 +187,16 @@ class Gnim(_Cached):
         if isinstance(out, ImplError):
             if out['error'] == 'EMDSiftCovergeError':
                 return 'skip:an underlying extraction did not converge within max_iters (documented error, C04)'
-            if r.status == 'err' and r.words and r.words[0] == out['error']:
-                return None
+            if _is_timeout(out):
+                return 'skip:run time is not the property\'s subject'
+            if r.status == 'err':
+                return None       # both refuse the input: the property fixes no exception class
+            if case.get('malformed'):
+                return 'skip:input outside the quantifier: the implementation refuses it (%s), the model does not' % out['error']
             return 'implementation raised %s, model says %s' % (out['error'], r.raw[:100])
         if not r.ok:
+            if case.get('malformed') and r.status == 'err':
+                return 'skip:input outside the quantifier: the model refuses it, the implementation returns a result'
             return 'model: %s, implementation returned a result' % r.raw[:100]
         if out['shape'] != [len(x), 1]:
             return 'result shape %s' % out['shape']
@@ -458,10 +464,16 @@ class MaskSift(_Cached):
         if isinstance(out, ImplError):
             if out['error'] == 'EMDSiftCovergeError':
                 return 'skip:an underlying extraction did not converge within max_iters (documented error, C04)'
-            if r.status == 'err' and r.words and r.words[0] == out['error']:
-                return None
+            if _is_timeout(out):
+                return 'skip:run time is not the property\'s subject'
+            if r.status == 'err':
+                return None       # both refuse the input: the property fixes no exception class
+            if case.get('malformed'):
+                return 'skip:input outside the quantifier: the implementation refuses it (%s), the model does not' % out['error']
             return 'implementation raised %s (%s), model says %s' % (out['error'], out['msg'][-120:], r.raw[:100])
         if not r.ok:
+            if case.get('malformed') and r.status == 'err':
+                return 'skip:input outside the quantifier: the model refuses it, the implementation returns a result'
             return 'model: %s, implementation returned %d columns' % (r.raw[:120], len(out['cols']))
         if float(r.args['margin']) < 1e-7 * max(1.0, case['thresh']):
             return 'skip:near-tie on the sift threshold'
